@@ -97,6 +97,11 @@ def run_C08(ctx):
     drive_and_validate(ctx, [{"driver": "C08", "n": sz(ctx, 1600, 60000), "probes": 32}])
 
 
+def run_C07(ctx):
+    run_model(ctx, "MC_BigInt", workers=4)
+    drive_and_validate(ctx, [{"driver": "C07", "n": sz(ctx, 2400, 100000)}])
+
+
 PROPS = {
     "C01": {"run": run_C01,
             "rule": "seeded generators (9 families) x 4 clip types x 4 fill rules x 4 entry points; an event is non-trivial "
@@ -151,6 +156,10 @@ PROPS = {
             "rule": "patterns (convex, star-shaped non-convex, negatively oriented quads, arbitrary) x paths of 1..5 points "
                     "(collinear runs) x sum/difference x closed/open; closed sums also with operands exchanged; non-trivial: "
                     "probes off the parallelogram band with both answers"},
+    "C07": {"run": run_C07,
+            "rule": "9 floating-point entry points (boolean, tree, engine, inflate, Minkowski sum/diff, rect clip of polygons "
+                    "and lines, trim) x precisions -8..8 (and out-of-range ones) x decimal inputs with 0..3 digits and "
+                    "magnitudes up to 10^11; non-trivial: non-empty result"},
     "C02": {"run": run_C02,
             "rule": "as C01 with preserve-collinear / reverse-solution toggled; non-trivial as C01"},
 }
